@@ -285,7 +285,7 @@ func runC16(tier string) int {
 		}
 	}
 	work := workDir()
-	defer os.RemoveAll(work)
+	defer cleanup(work)
 	fx := NewFixture(work+"/fx", dedupPkgs(pkgs))
 	validateFixture(fx)
 	g := &grouped{}
@@ -432,7 +432,7 @@ func runC20(tier string) int {
 		}
 	}
 	work := workDir()
-	defer os.RemoveAll(work)
+	defer cleanup(work)
 	fx := NewFixture(work+"/fx", []*SrcPkg{sp})
 	validateFixture(fx)
 	type soloKey struct {
@@ -524,7 +524,7 @@ func runC14E1(rep *Report, tier string) {
 	pkgs = append(pkgs, det14Pkgs()...)
 	cfgs := []Cfg{{Stub: true}, {Pkg: 2, Resets: true}}
 	work := workDir()
-	defer os.RemoveAll(work)
+	defer cleanup(work)
 	fx := NewFixture(work+"/fx", dedupPkgs(pkgs))
 	validateFixture(fx)
 	cases := casesFor(fx.Pkgs, cfgs, "")
